@@ -3,7 +3,7 @@
 TIER="${1:-quick}"; shift
 IDS="${*:-C01 C02 C03 C04 C05 C06 C07 C08 C09 C10 C11 C12 C13 C14 C15 C17 C18 C20 C21}"
 for p in $IDS; do
-  S=$(date +%s); OUT=$(/verif/check $p $TIER 2>&1); RC=$?; E=$(date +%s)
+  S=$(date +%s); OUT=$("$(dirname "${BASH_SOURCE[0]}")/../check" $p $TIER 2>&1); RC=$?; E=$(date +%s)
   echo "$p $TIER exit=$RC $((E-S))s $(echo "$OUT" | grep -cE '^VIOLATION') violations $(echo "$OUT" | grep -cE '^KNOWN-FINDING') known"
   echo "$OUT" | grep -E "^VIOLATION|^HARNESS" | head -5
 done
